@@ -485,12 +485,11 @@ func ruleC11_2(c *Ctx) {
 func ruleC11_3(c *Ctx) {
 	R := c.R
 	R.Rule("C11.3", "the hexadecimal column: the printer closure writes, for byte i of its argument, the two hex digits of that byte at columns 3i and 3i+1 of a 14-column field initialised to spaces, and writes the whole field", 4)
-	fn := c.Fn("decode", "Disassemble")
-	if fn == nil || len(fn.AnonFuncs) != 1 {
+	clo := c.printerFunc()
+	if clo == nil {
 		R.Anchor("the printer closure of decode.Disassemble")
 		return
 	}
-	clo := fn.AnonFuncs[0]
 	in := c.Interp()
 	type st struct {
 		idx, val *sym.Term
